@@ -123,6 +123,10 @@ func (c *CertRevocationValidator) UnmarshalCaddyfile(d *caddyfile.Dispenser) err
 	c.OCSPConfig = caddyConfig.OCSPConfig
 	c.CRLConfig = caddyConfig.CRLConfig
 	c.Mode = caddyConfig.Mode
+	err = parseMode(c)
+	if err != nil {
+		return err
+	}
 	err = validateConfig(c)
 	if err != nil {
 		return err
